@@ -98,7 +98,7 @@ def make_hw():
             row = [by[n] for n in REGS]
             self.batches.append(row)
             e = self.engine
-            self.flags.append((bool(e._runstate_started), bool(e._runstate_paused)) if e is not None else (False, False))
+            self.flags.append((flag(e, "started"), flag(e, "paused")) if e is not None else (False, False))
             self.last = row
 
         def connect(self):
@@ -138,6 +138,116 @@ def t8(x: Any) -> str:
         if e == int(e):
             return str(int(e))
     return "?" + repr(x)
+
+
+# ---------------------------------------------------------------------------------------
+# private engine state, found BY ROLE: the harness observes five private attributes of Engine (the four run
+# flags and the pre-pause snapshot). Their current names are the first guess; if one of them is missing the
+# attributes are identified once per process by what they do on a scratch engine.
+
+_DEFAULT_ROLES = {"started": "_runstate_started", "paused": "_runstate_paused", "holding": "_runstate_holding",
+                  "stopping": "_runstate_stopping", "snapshot": "_prev_state"}
+_ROLES: dict[str, str] | None = None
+_DISCOVERING = False
+
+
+class HarnessRoleError(RuntimeError):
+    """The harness cannot tell which private Engine attribute plays a role it has to observe."""
+
+
+# value of each role at the checkpoints: idle, after Start, Hold, Unhold, Pause, Unpause, Stop (first tick),
+# Stop (second tick); for `snapshot`: "is not None"
+_ROLE_VECTORS = {
+    "started":  (False, True, True, True, True, True, True, False),
+    "holding":  (False, False, True, False, False, False, False, False),
+    "paused":   (False, False, False, False, True, False, False, False),
+    "stopping": (False, False, False, False, False, False, True, False),
+    "snapshot": (False, False, False, False, True, False, False, False),
+}
+
+
+def _discover_roles() -> dict[str, str]:
+    sim = Sim("Mark: a")
+    try:
+        e = sim.e
+        shots: list[dict[str, Any]] = [dict(vars(e))]
+
+        def step(name):
+            e.execute_control_command_from_user(name)
+            sim.t += 1
+            e.tick(sim.t, 1.0)
+            shots.append(dict(vars(e)))
+        for name in ("Start", "Hold", "Unhold", "Pause", "Unpause", "Stop"):
+            step(name)
+        sim.t += 1
+        e.tick(sim.t, 1.0)
+        shots.append(dict(vars(e)))
+    finally:
+        sim.close()
+    names = [k for k in shots[0] if all(k in s for s in shots)]
+    found: dict[str, str] = {}
+    for role, vec in _ROLE_VECTORS.items():
+        if role == "snapshot":
+            cands = [k for k in names if not any(isinstance(s[k], bool) for s in shots)
+                     and tuple(s[k] is not None for s in shots) == vec]
+        else:
+            cands = [k for k in names if all(isinstance(s[k], bool) for s in shots)
+                     and tuple(s[k] for s in shots) == vec]
+        if len(cands) != 1:
+            raise HarnessRoleError(
+                f"harness/runstate.py: Engine has no attribute {_DEFAULT_ROLES[role]!r} and the attribute playing "
+                f"the role {role!r} cannot be identified by behaviour (Start, Hold, Unhold, Pause, Unpause, Stop on "
+                f"a scratch engine): {'no candidate' if not cands else 'tie between ' + ', '.join(sorted(cands))}")
+        found[role] = cands[0]
+    return found
+
+
+def roles(e=None) -> dict[str, str]:
+    """role -> name of the private Engine attribute. `{}` while the discovery itself is running."""
+    global _ROLES, _DISCOVERING
+    if _ROLES is not None:
+        return _ROLES
+    if _DISCOVERING:
+        return {}
+    if e is not None and all(k in vars(e) for k in _DEFAULT_ROLES.values()):
+        _ROLES = dict(_DEFAULT_ROLES)
+        return _ROLES
+    _DISCOVERING = True
+    try:
+        if e is None:
+            probe_sim = Sim("Mark: a")
+            try:
+                fast = all(k in vars(probe_sim.e) for k in _DEFAULT_ROLES.values())
+            finally:
+                probe_sim.close()
+            _ROLES = dict(_DEFAULT_ROLES) if fast else _discover_roles()
+        else:
+            _ROLES = _discover_roles()
+    finally:
+        _DISCOVERING = False
+    return _ROLES
+
+
+def flag(e, role: str) -> bool:
+    r = roles(e)
+    return bool(getattr(e, r[role])) if role in r else False
+
+
+def snapshot(e):
+    """the pre-pause snapshot of the engine (a TagValueCollection or None)"""
+    return getattr(e, roles(e)["snapshot"])
+
+
+def command_manager(e):
+    """the engine's current CommandManager (private attribute, found by type if it is not `_command_manager`)"""
+    cm = vars(e).get("_command_manager")
+    if cm is None:
+        from openpectus.engine.command_manager import CommandManager
+        cms = [v for v in vars(e).values() if isinstance(v, CommandManager)]
+        if len(cms) != 1:
+            raise HarnessRoleError("harness/runstate.py: cannot identify the engine's CommandManager attribute")
+        cm = cms[0]
+    return cm
 
 
 class Sim:
@@ -220,12 +330,12 @@ class Sim:
         orig_calc = e.update_calculated_tags
 
         def calc(tick_time, increment_time):
-            sim.state_at_clock = str(e._system_tags["System State"].get_value())
-            sim.started_at_clock = e._runstate_started
+            sim.state_at_clock = str(e.tags["System State"].get_value())
+            sim.started_at_clock = flag(e, "started")
             return orig_calc(tick_time, increment_time)
         e.update_calculated_tags = calc
 
-        em = e._emitter
+        em = e.emitter
         o_bs, o_be, o_sa, o_se = (em.emit_on_block_start, em.emit_on_block_end, em.emit_on_scope_activate,
                                   em.emit_on_scope_end)
 
@@ -247,10 +357,17 @@ class Sim:
         em.emit_on_block_start, em.emit_on_block_end = bs, be
         em.emit_on_scope_activate, em.emit_on_scope_end = sa, se
 
-        mm = e._method_manager
-        orig_handler = mm._interpreter_reset_handler
+        mm = e.method_manager
+        # the callback the method manager calls with every new interpreter: found by value (it is the engine's
+        # `on_interpreter_reset`); if it cannot be found the interpreter is (re)wrapped at the start of every op
+        hkeys = [k for k, v in vars(mm).items() if callable(v) and v == e.on_interpreter_reset]
+        self._wrapped: set[int] = set()
 
         def wrap_interp(interp):
+            if id(interp) in sim._wrapped:
+                return
+            sim._wrapped = {id(interp)}
+            sim._interp_keep = interp          # keeps the id from being reused
             orig_tick = interp.tick
 
             def tick(tick_time, tick_number):
@@ -262,42 +379,52 @@ class Sim:
                     raise
             interp.tick = tick
 
-        def handler(interp):
-            wrap_interp(interp)
-            return orig_handler(interp)
-        mm._interpreter_reset_handler = handler
-        if e._interpreter is not None:
-            wrap_interp(e._interpreter)
+        self._wrap_interp = wrap_interp
+        for hk in hkeys[:1]:
+            orig_handler = getattr(mm, hk)
+
+            def handler(interp):
+                wrap_interp(interp)
+                return orig_handler(interp)
+            setattr(mm, hk, handler)
+        self._ensure_wrapped()
+
+    def _ensure_wrapped(self):
+        try:
+            interp = self.e.interpreter
+        except Exception:  # noqa: BLE001  (no interpreter yet)
+            return
+        self._wrap_interp(interp)
 
     # -- observation ---------------------------------------------------------------------
     def obs(self, mode: str, nw0: int) -> str:
         e = self.e
-        tg = e._system_tags
+        tg = e.tags
         b = lambda x: "1" if x else "0"  # noqa: E731
         rid = tg["Run Id"].get_value()
         ctl = self.builder.create_control_state_msg().control_state
-        base = (f"st={tg['System State'].get_value()} f={b(e._runstate_started)}{b(e._runstate_paused)}"
-                f"{b(e._runstate_holding)}{b(e._runstate_stopping)} "
+        base = (f"st={tg['System State'].get_value()} f={b(flag(e, "started"))}{b(flag(e, "paused"))}"
+                f"{b(flag(e, "holding"))}{b(flag(e, "stopping"))} "
                 f"ctl={b(ctl.is_running)}{b(ctl.is_holding)}{b(ctl.is_paused)} "
                 f"rid={'-' if rid is None else self.run_ids.get(rid, '?' + str(rid))} "
                 f"ms={b(tg['Method Status'].get_value() == 'Error')} interp={b(self.last_interp)}")
         if mode == "c08":
-            prev = e._prev_state
+            prev = snapshot(e)
             ps = "none" if prev is None else ",".join(str(prev.get(n).value) if prev.has(n) else "_" for n in REGS)
             wl = "|".join(",".join(str(v) for v in row) for row in self.hw.batches[nw0:]) or "-"
             ui = sorted((n for n in e.uod.command_instances.keys() if n in UCMDS), key=UCMDS.index)
-            ux = [r.name + (".u" if r.source == "user" else ".m") for r in e._command_manager.cmd_executing
+            ux = [r.name + (".u" if r.source == "user" else ".m") for r in command_manager(e).cmd_executing
                   if r.name in UCMDS]
-            return (f"st={tg['System State'].get_value()} f={b(e._runstate_started)}{b(e._runstate_paused)}"
-                    f"{b(e._runstate_holding)}{b(e._runstate_stopping)} "
+            return (f"st={tg['System State'].get_value()} f={b(flag(e, "started"))}{b(flag(e, "paused"))}"
+                    f"{b(flag(e, "holding"))}{b(flag(e, "stopping"))} "
                     f"rid={'-' if rid is None else self.run_ids.get(rid, '?' + str(rid))} "
                     f"ms={b(tg['Method Status'].get_value() == 'Error')} interp={b(self.last_interp)} "
                     f"out={','.join(str(e.uod.tags[n].get_value()) for n in REGS)} prev={ps} wl={wl} "
                     f"uinst={','.join(ui) or '-'} uex={','.join(ux) or '-'}")
         if mode in ("c06", "all"):
-            inst = sorted(e.registry._command_instances.keys())
+            inst = sorted(e.registry.get_running_command_names())
             ex = [r.name + (".u" if r.source == "user" else ".m") + classify_arg(r.name, r.arguments)
-                  for r in e._command_manager.cmd_executing]
+                  for r in command_manager(e).cmd_executing]
             ctrl = f" inst={','.join(inst) or '-'} ex={','.join(ex) or '-'}"
         else:
             ctrl = ""
@@ -307,7 +434,7 @@ class Sim:
         else:
             clocks = ""
         if mode in ("c09", "all"):
-            prev = e._prev_state
+            prev = snapshot(e)
             if prev is None:
                 ps = "none"
             else:
@@ -321,12 +448,12 @@ class Sim:
     def raw(self) -> dict[str, Any]:
         """Observations for the property oracles (not compared with the model)."""
         e = self.e
-        tg = e._system_tags
+        tg = e.tags
         ctl = self.builder.create_control_state_msg().control_state
         return {
             "state": str(tg["System State"].get_value()),
-            "started": e._runstate_started, "paused": e._runstate_paused, "holding": e._runstate_holding,
-            "stopping": e._runstate_stopping,
+            "started": flag(e, "started"), "paused": flag(e, "paused"), "holding": flag(e, "holding"),
+            "stopping": flag(e, "stopping"),
             "ctl": (ctl.is_running, ctl.is_holding, ctl.is_paused),
             "run_id": tg["Run Id"].get_value(),
             "method_error": tg["Method Status"].get_value() == "Error",
@@ -335,7 +462,7 @@ class Sim:
             "outs": [e.uod.tags[n].get_value() for n in REGS],
             "n_batches": len(self.hw.batches),
             "has_error": e.has_error_state(),
-            "uex": [(r.name, r.source == "user") for r in e._command_manager.cmd_executing if r.name in UCMDS],
+            "uex": [(r.name, r.source == "user") for r in command_manager(e).cmd_executing if r.name in UCMDS],
             "simulated": [bool(e.uod.tags[n].simulated) for n in REGS],
         }
 
@@ -343,6 +470,7 @@ class Sim:
     def do(self, op: list, mode: str) -> tuple[str, str, dict[str, Any]]:
         """Run one op. Returns (op line for the model, canonical answer line, raw record for oracles)."""
         e = self.e
+        self._ensure_wrapped()
         nw0 = len(self.hw.batches)
         rec: dict[str, Any] = {"op": op}
         kind = op[0]
@@ -474,7 +602,7 @@ def probe() -> dict[str, bool]:
         for op in [["user", "Start"], ["tick", 8, 8, 0], ["user", "Pause"], ["tick", 8, 8, 0], ["user", "Stop"],
                    ["tick", 8, 8, 0], ["tick", 8, 8, 0]]:
             sim.do(op, "c09")
-        prev = sim.e._prev_state is None
+        prev = snapshot(sim.e) is None
     finally:
         sim.close()
     # start: does engine.run() write the safe process image; gate: does an interpreter-sourced UOD command keep
@@ -493,7 +621,7 @@ def probe() -> dict[str, bool]:
         for op in [["user", "Start"], ["tick", 8, 8, 0], ["set", 0, 33], ["user", "Pause"], ["user", "Pause"],
                    ["tick", 8, 8, 0]]:
             sim.do(op, "c09")
-        ps = sim.e._prev_state
+        ps = snapshot(sim.e)
         once = ps is not None and ps.has(REGS[0]) and ps.get(REGS[0]).value == 33
     finally:
         sim.close()
